@@ -61,6 +61,11 @@ class _TimeShim:
     def time(self) -> float:
         return self._c.time()
 
+    def __getattr__(self, name):  # everything else (monotonic, sleep, struct_time ...) is the real module's
+        import time as _t
+
+        return getattr(_t, name)
+
 
 class SimEntropy:
     """Deterministic entropy source with a ledger of draws.
@@ -113,6 +118,8 @@ class World:
         self.clock = SimClock() if clock_ns is None else SimClock(clock_ns)
         self.entropy = SimEntropy(seed)
         self.stats: t.Dict[str, int] = collections.Counter()
+        self.sim_fds: t.Dict[int, t.Any] = {}  # descriptors handed out by simulated sockets (select / poll seam)
+        self.entropy_device: t.Dict[str, t.Any] = {"mode": "ok"}  # /dev/urandom as a file: ok | eof | short (reads return fewer bytes)
         self.host_fqdn = "app01.hosting.example"  # the machine the client runs on (its DNS suffix is NOT the AD domain)
         self.events: t.List[tuple] = []
         self._digest = hashlib.sha256()
@@ -209,9 +216,17 @@ class World:
         # the host's own names are part of the world too (nothing in the unchanged library asks for them)
         patch(socket, "getfqdn", lambda name="": self.host_fqdn if not name else name)
         patch(socket, "gethostname", lambda: self.host_fqdn.split(".")[0])
+        import builtins
+        import select as _select
         import threading
 
-        from simworld import locks
+        from simworld import locks, osseams
+
+        patch(_select, "select", osseams.make_select(self, _select.select))
+        if hasattr(_select, "poll"):
+            patch(_select, "poll", osseams.make_poll(self, _select.poll))
+        if patch_entropy:
+            patch(builtins, "open", osseams.make_open(self, builtins.open))
 
         import dpapi_ng as _pkg
 
